@@ -22,7 +22,7 @@ MANIFEST = dict(
          "table, composed per combination) and the listed ones provably fail. Tie: constants and the guard operator are "
          "regenerated from the source; the member model is checked by a reflective correspondence (dir() of every reachable "
          "object of the REAL facades, a member the model does not know is a failure) exhaustive over all 895 combinations."
-         ' Since session 3: update histories (unit flip, temperature change, flip back) reach the block through replace_status_block_segment - the notification chain runs - and every member must read as the model says for the final block.',
+         ' Since session 3: update histories (unit flip, temperature change, flip back) reach the block through replace_status_block_segment - the notification chain runs - and every member must read as the model says for the final block. Round 14: every member on the second and third connection of one process (harness/sessions.py).',
     note="Trusted: Lean kernel; harness/packs.py table extraction; the stub spa (struct + accessors, as tests/test_snapshots.py); "
          "the canonicaliser. Members that start I/O (async_*, set_*, turn_on/off, update) are C13's. Float digits are C14's: the "
          "model predicts only that a temperature member is a float / its rendering a str. has_observers, object reprs, "
@@ -316,6 +316,36 @@ def impl_eval(f, flavor, raised, where):
         for k, v in r.items():
             out[f"{nm}.{k}"] = v
     return out, keys, unnamed
+
+
+def check_sessions(ctx):
+    """every read-only member of the facade of the SECOND connection in a process: the same spa again after a reset (the manager builds a
+    new spa object and a new facade), and the same once more - nothing raises and every value is what the first connection read"""
+    import sessions
+    from common import REPO
+    snap = str(REPO / "tests" / "snapshots" / "inYT-Pump1Hi-2020-12-13 11_19_35.snapshot")
+
+    def observe(k, man, sim):
+        raised = []
+        vals, _keys, _un = impl_eval(man.facade, "a", raised, f"session-{k}")
+        return {"raised": [f"{r[0]}.{r[1]}: {type(r[2]).__name__}: {r[2]}" for r in raised][:6],
+                "vals": {kk: v for kk, v in vals.items() if "ping" not in kk.lower() and "reminder" not in kk.lower()}}
+    recs = sessions.run_sessions([("connect", snap), ("reset",), ("reset",)], observe)
+    first = recs[0]["obs"] if recs and recs[0].get("obs") else None
+    for r in recs:
+        ctx.count("evaluations")
+        ctx.hist("sessions", "connected" if r["connected"] else "not-connected")
+        inp = {"kind": "sessions", "connection": r["step"] + 1}
+        if not r["connected"] or r.get("observe_raised"):
+            ctx.violation(f"sessions:connection-{r['step'] + 1}:not-usable", inp, "the manager connects and the facade can be read", r.get("observe_raised") or "not CONNECTED")
+            break
+        new_raises = [x for x in r["obs"]["raised"] if first is None or x not in first["raised"]]
+        diff = [] if first is None else [kk for kk, v in r["obs"]["vals"].items() if first["vals"].get(kk) != v][:6]
+        if r["step"] > 0 and (new_raises or diff):
+            ctx.violation(f"sessions:connection-{r['step'] + 1}:{'raises' if new_raises else 'differs'}", inp,
+                          "the facade of a later connection to the same spa reads what the first one read, and nothing raises",
+                          {"raised": new_raises, "members that differ": {kk: [first["vals"].get(kk), r["obs"]["vals"].get(kk)] for kk in diff}})
+            break
 
 
 def parse_model(line):
@@ -781,6 +811,11 @@ def run(ctx):
                 break
             hist_n += 1
     ctx.cov["update_history_cases"] = hist_n
+    # ---- a second and a third connection in the same process (the real client path)
+    try:
+        check_sessions(ctx)
+    except Exception as e:  # noqa
+        ctx.obligation_broken("harness:sessions", f"{type(e).__name__}: {e}")
     ctx.cov["impl_seconds"] = round(time.time() - t0, 1)
     t1 = time.time()
     compare(R)
@@ -811,6 +846,11 @@ def run(ctx):
 
 def replay(inp):
     """re-execute one failing input on the real code only"""
+    if inp.get("kind") == "sessions":
+        from common import Ctx
+        c = Ctx("C11", "quick", 0)
+        check_sessions(c)
+        return bool(c.violations), c.violations[0]["observed"] if c.violations else "later connections read what the first one read"
     if "wire" in inp:
         from geckolib.driver.protocol.reminders import GeckoRemindersProtocolHandler
         try:
